@@ -583,6 +583,7 @@ class Machine:
         else:
             r = self.op_drop()
         # the op methods have returned: none of their locals holds a node any more
+        self.last_op = str(r[0][0]) if r is not None else "noop"
         if self.before_observe is not None:
             self.before_observe()
         if r is not None:
